@@ -152,7 +152,7 @@ class Array:
 
     def _set_dtype(self, new_dtype: Union[str, Dtype]) -> None:
         if isinstance(new_dtype, Dtype):
-            self._dtype = new_dtype
+            dtype = new_dtype
         else:
             try:
                 dtype = Dtype(new_dtype)
@@ -162,9 +162,11 @@ class Array:
                     dtype = Dtype(name_length[0], name_length[1])
                 else:
                     raise ValueError(f"Inappropriate Dtype for Array: '{new_dtype}'.")
-            if dtype.length is None:
-                raise ValueError(f"A fixed length format is needed for an Array, received '{new_dtype}'.")
-            self._dtype = dtype
+        if dtype.length is None:
+            raise ValueError(f"A fixed length format is needed for an Array, received '{new_dtype}'.")
+        if dtype.length == 0:
+            raise ValueError(f"A non-zero length format is needed for an Array, received '{new_dtype}'.")
+        self._dtype = dtype
         if self._dtype.scale == 'auto':
             raise ValueError("A Dtype with an 'auto' scale factor can only be used when creating a new Array.")
 
